@@ -70,8 +70,12 @@ def _free_root(a, y):
         and all(y not in a.ch[j] for j in range(a.n))
 
 
+CHASE_SAFE = {'forest-children-parent-mismatch', 'forest-child-listed-as-root', 'forest-root-listed-twice', 'links-asymmetric',
+              'links-ancestor-descendant', 'links-self', 'links-cycle'}
+
+
 class StateInfo:
-    __slots__ = ('viol', 'duplinks', 'wellformed', 'expandable')
+    __slots__ = ('viol', 'duplinks', 'wellformed', 'expandable', 'chaseable')
 
 
 def check_state(U, enc, obs, cache):
@@ -85,6 +89,10 @@ def check_state(U, enc, obs, cache):
     # states that break only ownership / id-uniqueness clauses (C11, C05) still have terminating getters and are
     # expanded, so that later consequences are attributed to the property they break; C01-broken states are not
     si.expandable = not any(p == 'C01' for p, _, _ in v)
+    # C01-broken states in which every getter still terminates (a task listed twice / under another parent than it reports, a
+    # one-sided link) are not expanded in the search proper, but what the API allows NEXT from them is followed for two steps
+    # (bfs._chase): the later damage often belongs to another property (an unnoticed duplicate id, an owner that lies)
+    si.chaseable = (not si.expandable) and all(c in CHASE_SAFE for p, c, _ in v if p == 'C01') and not core.obs_has_zombie(obs)
     si.duplinks = (not core.obs_has_zombie(obs)) and core.has_duplicate_links(obs)
     if si.wellformed:
         v = v + core.getter_violations(U, obs)
@@ -286,6 +294,8 @@ def _expand_chunk(chunk):
                 if not si.expandable:
                     acc.count('pruned_illformed_successors')
                     new[post_enc] = None
+                    if si.chaseable:
+                        chase.append((post_enc, hist + (op,)))
                     continue
                 if not si.wellformed:
                     acc.count('expanded_states_breaking_only_C05_or_C11')
@@ -474,7 +484,8 @@ def _chase(U, chase, acc, rounds=2, cap=3000):
         return
     saved = U.alphabet
     U.alphabet = 'full'
-    _OPS = [o for o in O.alphabet(U) if o[0] in ATTACH_FAMILIES and o[0] not in ('list=view', 'list+=view', 'list=iter', 'Task()')]
+    _OPS = [o for o in O.alphabet(U) if o[0] in ATTACH_FAMILIES | {'remove', 'W.remove'}
+            and o[0] not in ('list=view', 'list+=view', 'list=iter', 'Task()')]
     U.alphabet = saved
     frontier = {}
     for k, h in chase:
@@ -542,6 +553,7 @@ def explore(uname, acc, max_depth=None, state_cap=250000, time_cap=None, collect
     t0 = time.time()
     trans0 = acc.counters['transitions']
     levels = []
+    chase_all = []
     while frontier:
         if max_depth is not None and depth >= max_depth:
             closed = False
@@ -561,7 +573,7 @@ def explore(uname, acc, max_depth=None, state_cap=250000, time_cap=None, collect
         nxt = []
         for r in runtime.pmap(_expand_chunk, chunks):
             newl = r.extra.pop('new')
-            r.extra.pop('chase', None)
+            chase_all += r.extra.pop('chase', None) or []
             acc.merge(r)
             for k, h in newl:
                 if h is None:
@@ -575,6 +587,9 @@ def explore(uname, acc, max_depth=None, state_cap=250000, time_cap=None, collect
         if len(seen) > state_cap:
             closed = False
             break
+    if chase_all:
+        _chase(U, chase_all, acc)
+        _OPS = ops
     phase2_transitions = 0
     if phase2 and closed and not frontier:
         # phase 2: from every reachable state apply every operation of the richer alphabet once (oracles on each
